@@ -4,6 +4,10 @@
    Vocabulary (Model/CamGen.v, Proofs/CamGenProofs.v):
      op          Start | Stop | Rep r (position report) | Check now dist (expiry of the
                  T_CheckCamGen timer at clock `now`; dist = metres to the position of the last CAM)
+                 | CheckFail now (expiry of the timer when the CAM cannot be handed over: the encoder
+                 rejects the current report or the lower layer raises, Annex B.2.5). Every statement
+                 below quantifies over histories that may contain failed checks; `dense` constrains
+                 the spacing of the checks at which a hand-over is possible.
      outs ops    the CAMs  Cam time lf gdt report_id  sent by the service, started in its initial
                  state, on the operation sequence ops;  reach ops = its state afterwards
      a premise   outs (pre ++ [Check t1 d1]) = outs pre ++ [c1]   says: the check at t1 sent c1;
@@ -135,6 +139,16 @@ Theorem C10_cam_t_gen_invariant : forall ops, T_GEN_CAM_MIN <= t_gen (reach ops)
 Proof. exact tr_t_gen. Qed.
 Print Assumptions C10_cam_t_gen_invariant.
 
+(* A check at which the CAM could not be handed over (encoder rejects the report, lower layer
+   raises once) leaves no trace: nothing is sent, the state is not advanced, and all later CAMs -
+   their times, their low-frequency containers (the interval is not restarted by a CAM that was
+   not sent), their content - are those of the history without the failed check. *)
+Theorem C10_cam_failed_check_no_trace : forall pre t post,
+  reach (pre ++ [CheckFail t]) = reach pre /\
+  outs (pre ++ [CheckFail t] ++ post) = outs (pre ++ post).
+Proof. exact tr_failed_check_no_trace. Qed.
+Print Assumptions C10_cam_failed_check_no_trace.
+
 (* ---- VAM (Model/VamGen.v): vouts rs = the VAMs  Vam report_ts lf gdt  sent on the report
    sequence rs by a freshly activated VRU service ------------------------------------------- *)
 
@@ -207,6 +221,15 @@ Theorem C10_vam_lf_rule : forall pre rl cl mid r2 c2,
 Proof. exact tv_lf_rule. Qed.
 Print Assumptions C10_vam_lf_rule.
 
+(* A report from which no VAM could be handed over (vfailed r: message construction, LDM adapter,
+   encoder or lower layer raised) leaves no trace either: no VAM, state not advanced (in particular
+   the time of the last low-frequency container), later VAMs as without that report. *)
+Theorem C10_vam_failed_report_no_trace : forall pre r post,
+  vreach (pre ++ [vfailed r]) = vreach pre /\
+  vouts (pre ++ [vfailed r] ++ post) = vouts (pre ++ post).
+Proof. exact tv_failed_no_trace. Qed.
+Print Assumptions C10_vam_failed_report_no_trace.
+
 (* Non-vacuity: concrete runs that satisfy the premises above. *)
 Example C10_example_cam_run :
   outs [Rep rep0; Start; Check 1000 0; Check 1100 0; Rep rep1; Check 1200 (1 # 2); Check 1300 (1 # 2);
@@ -219,3 +242,17 @@ Example C10_example_vam_run :
   vouts [vrep 630000000000 0 0; vrep 630000000050 0 0; vrep 630000000100 0 0; vrep 630000002100 0 0]
   = [Vam 630000000000 true 7168; Vam 630000000100 false 7268; Vam 630000002100 true 9268].
 Proof. exact example_vrun. Qed.
+
+Example C10_example_cam_failed_run :
+  outs [Rep rep0; Start; Check 1000 0; Check 1100 (5 # 1); Check 1200 (5 # 1); Check 1300 (5 # 1);
+        Check 1400 (5 # 1); CheckFail 1500; Check 1600 (5 # 1); Check 1700 (5 # 1)]
+  = [Cam 1000 true 7168 0; Cam 1100 false 7168 0; Cam 1200 false 7168 0; Cam 1300 false 7168 0;
+     Cam 1400 false 7168 0; Cam 1600 true 7168 0; Cam 1700 false 7168 0].
+Proof. exact failed_run. Qed.
+
+Example C10_example_vam_failed_run :
+  vouts [vrep 630000000000 0 0; vrep 630000000100 0 0; vfailed (vrep 630000002100 0 0);
+         vfailed (vrep 630000002200 0 0); vrep 630000002300 0 0; vrep 630000002400 0 0]
+  = [Vam 630000000000 true 7168; Vam 630000000100 false 7268; Vam 630000002300 true 9468;
+     Vam 630000002400 false 9568].
+Proof. exact example_vrun_failed. Qed.
